@@ -37,6 +37,12 @@ ASSUMPTIONS = [
     "top-level-group tag per top-level group: the Delay + second temporal tag combination the validator also accepts is "
     "outside the proved grammar, it is covered by the correspondence run) + required/unique + no two siblings with "
     "the same canonical (case-folded, order-free) text + well-shaped Duration/Delay and Onset/Offset/Inset groups",
+    "the theorems for unknown tag / extension-is-term / bad unit / bad value / undeclared Def / altered Def-expand are "
+    "PROPAGATION of fact inputs (leaf verdict contains kind k => code(k) reported); Conforming's per-tag part is partly "
+    "'the leaf validator is silent' (units_dispatch, tf_def_contents; tag characters also given declaratively); the "
+    "history theorem is immediate on the stateless model -- the implementation side of all three is TESTED by the oracle",
+    "empty group '()' -> TAG_EMPTY is proved (C01_mutation_empty_group, and from per-tag conformity with empty groups "
+    "allowed: C01_mutation_empty_group_from_tags); the full phase never raises for ANY annotation",
     "per-rule theorems are stated on the mutated annotation (its other tags individually conforming: "
     "C01_reach_phase1/3, C01_reach_full_phase); the relational Mut formulation is proved for the string-level rules "
     "(C01_mutation_reports_code_string_level)",
@@ -50,9 +56,10 @@ ASSUMPTIONS = [
     "history independence of a validator object is a theorem of the (stateless) model and a TESTED clause on the "
     "implementation: sequences of 2-6 annotations on one HedValidator must give the verdicts of fresh validators and "
     "of the model's vrun",
-    "the model follows /repo HEAD incl. the fix: commits 5df7886 (parenthesis nesting), 7597eca + 2492808 (canonical "
-    "duplicate detection, case-folded tag equality) and cbb8087 (Def-expand compared up to sibling order, seen through "
-    "the _validate_def_contents fact); the duplicate-check theorems reuse C04's string order, stable-sort facts and "
+    "the model follows the CURRENT /repo incl. fix commits 5df7886 (parenthesis nesting), 7597eca + 2492808 (canonical "
+    "duplicate detection, case-folded tag equality), cbb8087 (Def-expand compared up to sibling order, seen through "
+    "the _validate_def_contents fact) and 3e47c8c (repeated empty groups reported instead of IndexError; the pre-fix "
+    "variant dup_n_before_3e47c8c is kept only as the record of the repaired defect); the duplicate-check theorems reuse C04's string order, stable-sort facts and "
     "unique decoding of canonical keys (Proofs/DupsProofs.v)",
 ]
 
@@ -314,11 +321,12 @@ def corpus_cases():
     add("8_3_0", "Label/#", False, "PLACEHOLDER_INVALID", "corpus-mutant")
     add("8_3_0", "Label/#", True, None, "corpus-valid")
     add("8_3_0", "Red, {col}", False, "CHARACTER_INVALID", "corpus-mutant")
-    # behaviour outside the property's quantifier (two faults) kept for correspondence only: validation raises
-    for t in ["(),()", "Red,(),()", "((),())"]:
-        add("8_3_0", t, False, "*", "corpus-two-empty-groups")
+    # repeated groups that hold nothing but empty groups: raised IndexError before fix commit 3e47c8c; an exception
+    # inside validation is a VIOLATION (validation-raises), never an "equal outcome"
+    for t in ["(),()", "Red,(),()", "((),())", "(()),(())", "((),(Red)),((Red),())"]:
+        add("8_3_0", t, False, "TAG_EMPTY", "empty_groups_repeated")
     # known findings (witnesses)
-    # former findings C01-F1 / C01-F2 (repaired by fix: commits): ordinary cases now, a regression is a VIOLATION
+    # former findings C01-F1 (fix commit cbb8087) / C01-F2 (fix commits 7597eca + 2492808): ordinary cases now
     add("8_3_0", "(Def-expand/OrdDef,(Red,Blue))", False, None, "v_defexpand_declared_order", defs_extra=True)
     add("8_3_0", "((Blue,Red),Def-expand/MyDef)", False, None, "v_defexpand_reordered")
     add("8_3_0", "(Red,Blue),(Green),(Blue,Red)", False, "TAG_EXPRESSION_REPEATED", "repeat_group_permuted")
